@@ -201,6 +201,7 @@ MkGen(x) ==
   CASE x.kind = "crawl" -> NewCrawl(x.data)
     [] x.kind = "rule"  -> NewRule(x.anchor, x.rule)
     [] x.kind = "qpages" -> NewPagesQuery(x.ps, x.oc)
+    [] x.kind = "qnet" -> NewNetQuery(x.out, x.auto)
     [] OTHER -> QueryGen
 
 CoopRam(rm, gs, S) ==
@@ -244,6 +245,7 @@ CoopClauses(st, rm, d, gs, S, post, o0, o1) ==
       <<"bind.done",   isq \/ r.g.done = S.a.done>>,
       <<"bind.report", isq \/ ~S.a.done \/ (r.g.pages = S.pages /\ r.g.created = S.created)>>,
       <<"bind.qresult", (gs[S.a.g].kind = "qpages" /\ S.a.done /\ S.exc = "") => r.g.acc = S.a.result>>,
+      <<"bind.qnet",    (gs[S.a.g].kind = "qnet" /\ S.a.done /\ S.exc = "") => r.g.graph = Trip3(S.a.net)>>,
       <<"bind.trie",   r.st.trie = post.trie>>,
       <<"bind.links",  r.st.ls = post.ls>>,
       <<"bind.hdr",    r.st.lastId = post.lastId>>,
